@@ -262,8 +262,8 @@ class SetOf(Sort):
     return z3.K(self.elem.z3(), z3.BoolVal(False))
 
   def eq(self, a, b):
-    x = self.elem.fresh('x')
-    return z3.ForAll([x], z3.Select(a, x) == z3.Select(b, x))
+    # array equality is extensional in the SMT theory of arrays
+    return a == b
 
   def is_empty(self, t):
     x = self.elem.fresh('x')
